@@ -134,7 +134,62 @@ def scan_trusted(text, fname):
     return out
 
 
+MIRRORS = [
+    # (source file, item, prelude file, item in the prelude)
+    ('libfs/src/errors.rs', 'enum Error', 'libfs_10_types.rs', 'enum Error'),
+    ('libxcp/src/errors.rs', 'enum XcpError', 'libxcp_10_types.rs', 'enum XcpError'),
+    ('libfs/src/lib.rs', 'enum FileType', 'libfs_10_types.rs', 'enum FileType'),
+    ('libxcp/src/drivers/mod.rs', 'enum Drivers', 'xcp_10_main.rs', 'enum Drivers'),
+]
+
+
+def enum_variants(text):
+    """[(variant name, number of tuple fields)] of an enum item text; attributes and comments ignored"""
+    st = rtok.sig(rtok.lex(text))
+    o = next(i for i, t in enumerate(st) if t[1] == '{')
+    c = rtok.match_close(st, o)
+    out = []
+    i = o + 1
+    while i < c:
+        if st[i][1] == '#' and st[i + 1][1] == '[':
+            i = rtok.match_close(st, i + 1) + 1
+            continue
+        if st[i][0] == 'ident':
+            name = st[i][1]
+            arity = 0
+            j = i + 1
+            if j < c and st[j][1] == '(':
+                e = rtok.match_close(st, j)
+                depth = 0
+                arity = 1
+                for k in range(j + 1, e):
+                    if st[k][1] in ('(', '<', '['):
+                        depth += 1
+                    elif st[k][1] in (')', '>', ']'):
+                        depth -= 1
+                    elif st[k][1] == ',' and depth == 0 and k != e - 1:
+                        arity += 1
+                j = e + 1
+            out.append((name, arity))
+            while j < c and st[j][1] != ',':
+                j += 1
+            i = j + 1
+            continue
+        i += 1
+    return out
+
+
+def check_mirrors(repo):
+    """hand-written type mirrors must list the same variants (names, arity) as the source; drift is a tool error"""
+    for src, what, pfile, pwhat in MIRRORS:
+        a = enum_variants(extract.find_item_text(read(os.path.join(repo, src)), what))
+        b = enum_variants(extract.find_item_text(read(os.path.join(VERIF, 'prelude', pfile)), pwhat))
+        if sorted(a) != sorted(b):
+            raise ToolError('type mirror drift: %s `%s` has variants %s but prelude/%s has %s' % (src, what, sorted(a), pfile, sorted(b)))
+
+
 def assemble(repo=REPO, mutate_hook=None, only_units=None, canary=False):
+    check_mirrors(repo)
     fns = specmod.load_dir(os.path.join(VERIF, 'contracts'))
     eff = load_effectful()
     items = [f for f in fns if f.is_item]
